@@ -443,6 +443,9 @@ fn build_schema(rng: &mut Rng, malformed: bool) -> Built {
             _ => {}
         }
     }
+    // the malformed stream may have dropped or added definitions: recompute what the schema defines
+    let scalar_names: Vec<String> = s.types.iter().filter(|t| matches!(t.kind, Kind::Scalar)).map(|t| t.name.clone()).collect();
+    let type_names: Vec<String> = s.types.iter().map(|t| t.name.clone()).collect();
     let text = render(&s, &x, rng.chance(1, 2));
     Built { text, features, type_names, scalar_names, has_model }
 }
@@ -509,8 +512,8 @@ fn main() {
     let mut distinct: HashSet<String> = HashSet::new();
     let mut dist: BTreeMap<String, u64> = BTreeMap::new();
     let mut bump = |k: &str| { *dist.entry(k.to_string()).or_insert(0) += 1; };
-    let n_valid = if thorough { 2500 } else { 230 };
-    let n_malformed = if thorough { 500 } else { 50 };
+    let n_valid = if thorough { 1500 } else { 230 };
+    let n_malformed = if thorough { 300 } else { 50 };
     let mut samples: Vec<J> = vec![];
     let mut name_cases: Vec<(String, J)> = vec![];
     let mut n_evals: u64 = 0;
